@@ -291,24 +291,34 @@ pub struct BuiltComp {
 /// Build every component of the library with the reference toolchain.  `Err` = the reference side
 /// rejected generated WIT (a generator bug, never a wac defect).
 pub fn build_library(lib: &Library) -> Result<Vec<BuiltComp>, String> {
-    match crate::engine::guarded(|| build_library_inner(lib)) {
+    build_library_with(lib, true)
+}
+
+/// `merge == false` keeps two versions of one interface imported by one world as two imports (the
+/// reference encoder otherwise merges them into the higher version).
+pub fn build_library_with(lib: &Library, merge: bool) -> Result<Vec<BuiltComp>, String> {
+    match crate::engine::guarded(|| build_library_inner(lib, merge)) {
         Ok(r) => r,
         Err(p) => Err(format!("reference toolchain panicked: {p}")),
     }
 }
 
-fn build_library_inner(lib: &Library) -> Result<Vec<BuiltComp>, String> {
+fn build_library_inner(lib: &Library, merge: bool) -> Result<Vec<BuiltComp>, String> {
     let api_texts: Vec<String> = (0..lib.apis.len()).map(|k| render_api(&lib.apis, k)).collect();
     let mut out = vec![];
     for c in &lib.comps {
         let wit = render_world(&lib.apis, c);
-        let bytes = build_component(&api_texts, &wit).map_err(|e| format!("{e}\n--- world ---\n{wit}\n--- apis ---\n{}", api_texts.join("\n")))?;
+        let bytes = build_component_with(&api_texts, &wit, merge).map_err(|e| format!("{e}\n--- world ---\n{wit}\n--- apis ---\n{}", api_texts.join("\n")))?;
         out.push(BuiltComp { name: c.name.clone(), version: c.version.as_ref().map(|v| semver::Version::parse(v).unwrap()), bytes, wit });
     }
     Ok(out)
 }
 
 pub fn build_component(api_texts: &[String], world_wit: &str) -> Result<Vec<u8>, String> {
+    build_component_with(api_texts, world_wit, true)
+}
+
+pub fn build_component_with(api_texts: &[String], world_wit: &str, merge: bool) -> Result<Vec<u8>, String> {
     let mut resolve = wit_parser::Resolve::default();
     for (i, t) in api_texts.iter().enumerate() {
         resolve.push_str(format!("api{i}.wit"), t).map_err(|e| format!("wit-parser rejected api package {i}: {e:#}"))?;
@@ -317,7 +327,7 @@ pub fn build_component(api_texts: &[String], world_wit: &str) -> Result<Vec<u8>,
     let world = resolve.select_world(&[pkg], None).map_err(|e| format!("select_world: {e:#}"))?;
     let mut module = wit_component::dummy_module(&resolve, world, wit_parser::ManglingAndAbi::Legacy(wit_parser::LiftLowerAbi::Sync));
     wit_component::embed_component_metadata(&mut module, &resolve, world, wit_component::StringEncoding::default()).map_err(|e| format!("embed metadata: {e:#}"))?;
-    let mut encoder = wit_component::ComponentEncoder::default().validate(true).module(&module).map_err(|e| format!("encoder.module: {e:#}"))?;
+    let mut encoder = wit_component::ComponentEncoder::default().validate(true).merge_imports_based_on_semver(merge).module(&module).map_err(|e| format!("encoder.module: {e:#}"))?;
     encoder.encode().map_err(|e| format!("component encode: {e:#}"))
 }
 
